@@ -72,8 +72,11 @@ type caseSpec struct {
 	Listener string `json:"listener_host"` // basic | blank
 	// exact handlers the OPENER registers for itself before the first round: nobody opens a stream towards
 	// the opener, so they must never run, and they must not influence what the opener proposes
-	OpenerHandlers []string    `json:"opener_own_handlers"`
-	Rounds         []roundSpec `json:"rounds"`
+	OpenerHandlers []string `json:"opener_own_handlers"`
+	// both hosts run without a resource manager (network.NullResourceManager, the swarm's default): there
+	// Stream.SetProtocol never refuses a second call; the scope clauses cannot be observed and are skipped
+	NoRcmgr bool        `json:"hosts_without_resource_manager,omitempty"`
+	Rounds  []roundSpec `json:"rounds"`
 }
 
 type roundResult struct {
@@ -152,6 +155,7 @@ func genCase(rng *rand.Rand, idx int, thorough, allowBlank bool) *caseSpec {
 	if rng.IntN(2) == 0 {
 		c.OpenerHandlers = pickDistinct(rng, 1+rng.IntN(3), "")
 	}
+	c.NoRcmgr = allowBlank && idx%16 >= 11
 	tab := newTable()
 	nr := 3 + rng.IntN(4)
 	for ri := 0; ri < nr; ri++ {
@@ -382,6 +386,9 @@ func (s *state) runCase(c *caseSpec) (res caseResult) {
 		kindA, kindB := c.Opener, c.Listener
 		if c.Reverse {
 			kindA, kindB = kindB, kindA
+		}
+		if c.NoRcmgr {
+			kindA, kindB = kindA+"/no-rcmgr", kindB+"/no-rcmgr"
 		}
 		na := newNode(f, ka, c.Sec, "10.0.0.1", kindA)
 		nb := newNode(f, kb, c.Sec, "10.0.0.2", kindB)
@@ -643,6 +650,10 @@ func (s *state) judgeRound(c *caseSpec, ri int, rr *roundResult, exact bool) boo
 	}
 	// (5) "the stream is charged to the negotiated protocol's resource scope on both sides"
 	for side, name := range []string{"opener", "listener"} {
+		if c.NoRcmgr {
+			r.Count("rounds_on_hosts_without_resource_manager", 1)
+			break
+		}
 		dir := 1 - side // opener: outbound (index 1); listener: inbound (index 0)
 		v := rr.OpenView[side]
 		for _, id := range auditIDs {
@@ -764,6 +775,7 @@ func TestC07(t *testing.T) {
 	if !r.Replaying() {
 		s.assumptionProbe()
 	}
+	s.quotaPart()
 	if !r.Quick() && os.Getenv("VERIF_RACE") != "1" {
 		s.tcpCases()
 	}
